@@ -158,7 +158,9 @@ def clause_domain(ctx, dets):
     n = 0
     for ci in dets + [prog.cls(x) for x in q.ENSEMBLES]:
         for m in all_method_names(ci):
-            tr = ctx.trace(ci.name, m)
+            tr = ctx.trace_member(ci.name, m)
+            if tr is None:
+                continue
             for ev in tr.stores("_drift_state"):
                 k = (ev.func.qualname, ev.line)
                 if ev.func.is_setter or k in seen:
@@ -240,7 +242,9 @@ def clause_counters(ctx, dets):
         base = q.base_of(prog, ci)
         tot, since = q.COUNTERS[base.name]
         for m in all_method_names(ci):
-            tr = ctx.trace(ci.name, m)
+            tr = ctx.trace_member(ci.name, m)
+            if tr is None:
+                continue
             for ev in tr.stores():
                 if ev.attr not in (tot, since):
                     continue
